@@ -491,6 +491,18 @@ def _clean_up_state(state: State) -> None:
         flow_states.remove(flow_state)
         del state.flow_states[flow_state_uid]
 
+    # A flow that was activated by several flows is listed as a child of each of them, but only
+    # the list of its parent was updated above: drop the removed flows from all remaining lists
+    if states_to_be_removed:
+        removed_uids = set(states_to_be_removed)
+        for flow_state in state.flow_states.values():
+            if any(uid in removed_uids for uid in flow_state.child_flow_uids):
+                flow_state.child_flow_uids[:] = [
+                    uid
+                    for uid in flow_state.child_flow_uids
+                    if uid not in removed_uids
+                ]
+
     # Remove all actions that are no longer referenced
     # TODO: Refactor to use no more ids to simplify memory management
     new_action_dict: Dict[str, Action] = {}
